@@ -253,6 +253,14 @@ func Destroy() {
 	if !global.init {
 		return
 	}
+	// Detach tags and named loggers first, so that logging falls back
+	// to the default logger instead of reaching stopped loggers.
+	for _, t := range tagRegistry {
+		t.logger = nil
+	}
+	for _, l := range loggerMap {
+		l.logger = nil
+	}
 	for _, l := range global.loggers {
 		l.Stop()
 	}
